@@ -189,6 +189,23 @@ func (e *Env) eval(x *Expr) Val {
 	case "field":
 		return e.field(x)
 	case "quant":
+		if strings.HasSuffix(x.Op, "!") {
+			lo, ok1 := e.int(x.Lo).IntVal()
+			hi, ok2 := e.int(x.Hi).IntVal()
+			if !ok1 || !ok2 || hi.Int64()-lo.Int64() > 4096 {
+				specErr("%s needs literal bounds (at most 4096 values): %s", x.Op, x)
+			}
+			var parts []*Term
+			for i := lo.Int64(); i < hi.Int64(); i++ {
+				n := e.child()
+				n.vars[x.Var] = intVal(IntLit(i))
+				parts = append(parts, n.bool(x.Args[0]))
+			}
+			if x.Op == "forall!" {
+				return boolVal(And(parts...))
+			}
+			return boolVal(Or(parts...))
+		}
 		n := e.child()
 		freshCounter++
 		k := Var(fmt.Sprintf("%s?%d", x.Var, freshCounter), SInt)
